@@ -168,6 +168,15 @@ func NewVerifC17(o VerifC17Opts, tm *VerifC17Templates) *VerifC17 {
 		transportServerValidator:     validation.NewTransportServerValidator(o.TLSPassthrough, o.Snippets, o.IsPlus),
 	}
 	lbc.syncQueue = newTaskQueue(logger, lbc.sync)
+	// as NewLoadBalancerController does; the controller's own service is nginx-ingress/nginx-ingress
+	lbc.statusUpdater = &statusUpdater{
+		namespace:              "nginx-ingress",
+		externalServiceName:    "nginx-ingress",
+		keyFunc:                keyFunc,
+		namespacedInformers:    lbc.namespacedInformers,
+		hasCorrectIngressClass: lbc.HasCorrectIngressClass,
+		logger:                 logger,
+	}
 	lbc.configuration = NewConfiguration(
 		lbc.HasCorrectIngressClass, o.IsPlus, o.AppProtect, o.AppProtectDos, o.InternalRoutes,
 		validation.NewVirtualServerValidator(validation.IsPlus(o.IsPlus), validation.IsDosEnabled(o.AppProtectDos),
